@@ -29,7 +29,7 @@ def run(ctx):
                         ids = [(b"", b""), (b"alice", b"bob"), (b"\x00", b"\xff")][(x + w) % 3]
                         r.new("s%d" % x, cls, ps, pw, ids[0], ids[1] if cls != "S" else b"")
                         msgs.append(r.start("s%d" % x, mp.stream_for(g, x, redraws=x % 2, k=x % 3)))
-                    r.t.raw({"op": "msg_table", "ps": ps, "cls": cls, "pw": hx(pw), "msgs": [hx(m) for m in msgs], "w": q})
+                    r.t.raw({"op": "msg_table", "ps": ps, "cls": cls, "pw": hx(pw), "msgs": [hx(m) if m is not None else "" for m in msgs], "w": q})
                     traces.append(r.json())
     ctx.cov["message_tables"] = len(traces)
     # full size: message - w.M = x.G for edge and random scalars (byte-exact start() validation), ids vary
